@@ -3,7 +3,7 @@ on an identity model so that the aggregated loss is an exact small rational."""
 import torch
 import torchphysics as tp
 from torchphysics.problem.spaces import Points
-from .common import main, watched, rat
+from .common import main, watched, rat, pick
 
 
 class Ident(tp.models.Model):
@@ -38,7 +38,7 @@ def run_one(s):
 
 def _run_one(s):
     kind = s["kind"]
-    s = dict(s, grid=(kind == "points" and s["tid"] % 3 == 0))
+    s = dict(s, grid=(kind == "points" and pick(s["tid"], 3) == 0))
     tr = {"batches": []}
     if kind == "points":
         X, U, loader = points_loader(s)
